@@ -115,7 +115,7 @@ prop("C03", "exploration", HIST_RULE + "; C03 monitor M-excl: every Locked outpu
      {"quick": 3000, "thorough": 40000},
      ["deliveries of one slate to a different account are judged only by the exclusivity invariants (the statement says 'the same step')",
       "histories of this check never cancel after broadcast"],
-     required_hist=["repeat:tx_lock_outputs:refused", "repeat:receive_tx:refused", "repeat:finalize_tx:refused", "finalized-inputs-checked", "op:cancel", "op:restart"])
+     required_hist=["repeat:tx_lock_outputs:refused", "repeat:receive_tx:refused", "repeat:finalize_tx:refused", "finalized-inputs-checked", "op:cancel", "op:restart", "op:lock-called-on-a-late-locked-send-before-finalize:ok"])
 
 prop("C04", "exploration", HIST_RULE + "; C04 monitor M-books at every validated refresh: wallet records Unspent/Locked <=> commitment in the chain's UTXO set "
      "(plus: no UTXO commitment ever held by the account is forgotten), reported spendable/immature/awaiting/locked/total for minimum_confirmations "
@@ -213,7 +213,7 @@ prop("C02", "exploration",
       {"name": "c02-asan", "cmd": "c02", "shards": 12, "tiers": ["thorough"], "run_tier": "quick", "build": "asan", "tag": "asan", "crash_is_violation": True, "timeout": {"thorough": 3000}}],
      {"quick": 800, "thorough": 5000},
      ["kernel-feature arguments are excluded as the statement says", "honest replies that fail are inconclusive, never violations"],
-     required_hist=["success-exact:Send", "success-exact:Invoice", "success-exact:LateLock", "success-exact:SelfSend", "refused:altered", "cancel-after-refused-reply-restores-balance"])
+     required_hist=["success-exact:Send", "success-exact:Invoice", "success-exact:LateLock", "success-exact:SelfSend", "refused:altered", "cancel-after-refused-reply-restores-balance", "late-lock-cli-order:accepted-with-inputs-reserved", "planted-receive-with-the-id-of-the-pending-send:accepted"])
 
 prop("C11", "exploration",
      "proof-carrying sends (send, late-locked, self-send; random amounts and change shapes) whose replies are altered field-wise (proof stripped, signature "
